@@ -91,7 +91,7 @@ void set_decomp_clamp(size_t bytes);
 size_t decomp_clamp();
 // C12 (simmap.cpp): every (re)mapping lands at a fresh address; the n-th fstatvfs reports a full disk (-1 = never)
 void set_map_policy(bool move_always, int no_space_at);
-// compressor failure: the n-th call (0-based) of compress2() in this run returns Z_MEM_ERROR (-1 = off)
+// compressor failure: the n-th call (0-based, counted over deflate/BZ2_bzCompress/LZ4_compress_fast) in this run fails (-1 = off)
 void set_compress_fail_at(int call);
 int compress_fail_at();
 void count_compress_call(bool failed);
